@@ -162,6 +162,10 @@ func (r *run) render(v reflect.Value) string {
 		}
 		return fmt.Sprintf(`{"int":%d}`, v.Int())
 	}
+	// the remaining kinds of the universe (named integers, channels, maps, function values) are only ever zero
+	if id := r.ts.id(t); id >= 0 && v.IsZero() {
+		return fmt.Sprintf(`{"zero":%d}`, id)
+	}
 	return fmt.Sprintf(`{"unk":%q}`, t.String())
 }
 
